@@ -127,6 +127,41 @@ def rule_signal_order(ctx: Ctx) -> RuleResult:
     return rr
 
 
+def rule_clamped_cursor_read(ctx: Ctx) -> RuleResult:
+    """set_edit_text() clamps the cursor to the new text (edit_pos = min(edit_pos, len(text))).  A cursor update
+    written *relative to self.edit_pos* that comes after set_edit_text() in the same statement sequence therefore
+    starts from a value that may already have been pulled back: the cursor moves twice.  After set_edit_text() the
+    cursor is set from a position computed before the call (a local), as insert_text/backspace do."""
+    p = ctx.p
+    rr = RuleResult("ORDER", "C10.11", "after set_edit_text() (which clamps the cursor) the cursor is not updated relative to self.edit_pos in the same statement sequence", floor=4)
+    for C in [c for c in p.classes.values() if c.name in FAMILY and c.module.name.startswith("urwid.widget")]:
+        for fi in C.methods.values():
+            for blk_owner in ast.walk(fi.node):
+                for fld in ("body", "orelse", "finalbody"):
+                    blk = getattr(blk_owner, fld, None)
+                    if not isinstance(blk, list):
+                        continue
+                    seen_set_text = None
+                    for st in blk:
+                        calls = [c for c in ast.walk(st) if isinstance(c, ast.Call) and isinstance(c.func, ast.Attribute)] if isinstance(st, (ast.Expr, ast.Assign)) else []
+                        for c in calls:
+                            if c.func.attr == "set_edit_text":
+                                seen_set_text = c
+                        if seen_set_text is None:
+                            continue
+                        upd = None
+                        if isinstance(st, ast.Expr) and isinstance(st.value, ast.Call) and isinstance(st.value.func, ast.Attribute) and st.value.func.attr == "set_edit_pos" and st.value.args:
+                            upd = st.value.args[0]
+                        elif isinstance(st, ast.Assign) and any(isinstance(t, ast.Attribute) and t.attr == "edit_pos" for t in st.targets):
+                            upd = st.value
+                        if upd is None:
+                            continue
+                        rr.inst(f"{short(fi)}:{norm(st, 50)}", True, {"function": short(fi), "after_set_edit_text": norm(st, 60)})
+                        if any(isinstance(x, ast.Attribute) and x.attr == "edit_pos" and isinstance(x.ctx, ast.Load) for x in ast.walk(upd)):
+                            rr.add(finding("ORDER", fi, st, f"`{norm(st, 60)}` computes the new cursor from self.edit_pos after `{norm(seen_set_text, 40)}` may already have clamped it to the shorter text: with the cursor at the end it moves two places per removed character", construct=f"cursor updated relative to the clamped position: {norm(st, 60)}"))
+    return rr
+
+
 def rule_char_moves(ctx: Ctx) -> RuleResult:
     p = ctx.p
     rr = RuleResult("WRITER", "C10.4", "Edit.keypress: positions and slice bounds on the left/right/backspace/delete branches come from move_prev_char / move_next_char", floor=4)
@@ -275,6 +310,7 @@ def run(ctx: Ctx):
         rule_pref_col_reset(ctx),
         rule_alphabet(ctx),
         rule_same_text(ctx),
+        rule_clamped_cursor_read(ctx),
         accum.run_accum(p, "C10.9", "C10", floor=3),
         offstep.run_offstep(p, "C10.10", ["urwid.text_layout.calc_line_pos", "urwid.text_layout.calc_pos", "urwid.text_layout.calc_coords"], floor=0),
     ]
@@ -283,6 +319,7 @@ def run(ctx: Ctx):
 _F = "urwid/widget/edit.py"
 _N = "urwid/numedit.py"
 MUTANTS = [
+    Mut("intedit-trim-text-before-cursor", "urwid/widget/edit.py", "IntEdit.keypress", "            self.set_edit_pos(self.edit_pos - 1)\n            self.set_edit_text(self.edit_text[1:])", "            self.set_edit_text(self.edit_text[1:])\n            self.set_edit_pos(self.edit_pos - 1)", "ORDER|widget.edit.IntEdit.keypress"),
     Mut("end-key-last-byte", "urwid/text_layout.py", "calc_line_pos", "        return calc_text_pos(text, s.offs, s.end, s.sc - 1)[0]\n\n    for seg in line_layout:", "        return s.end - 1\n\n    for seg in line_layout:", "OFFSTEP|text_layout.calc_line_pos"),
     Mut("pos-unclamped-low", _F, "Edit.set_edit_pos", "pos = min(max(pos, 0), len(self._edit_text))", "pos = min(pos, len(self._edit_text))", "WRITER|widget.edit.Edit.set_edit_pos"),
     Mut("text-written-by-insert", _F, "Edit.insert_text", "        self.set_edit_text(result_text)\n", "        self._edit_text = result_text\n", "WRITER|widget.edit.Edit.insert_text"),
